@@ -335,11 +335,11 @@ def _r3_recovery(ctx, rep, res) -> None:
         txt = norm(sel[0])
         sel_ok = "stage.status == WorkflowStatus.RUNNING" in txt and "self._has_started(stage)" in txt and "self._can_start(stage, full_workflow)" in txt and txt.count("stages_to_requeue.append(stage)") >= 3
     rep.check(sel_ok, "C01.R3", "recovery stage selection", "RUNNING | NOT_STARTED with evidence of start | NOT_STARTED with satisfied requisites are all selected", fi.file, sel[0].lineno if sel else fi.node.lineno)
-    # NOT_STARTED workflow with nothing to re-queue -> StartWorkflow
+    # NOT_STARTED workflow -> StartWorkflow (and only there; that no stage of such a workflow is started directly is C10.R9)
     from ..dom import conditions_at
     sw = [c for c in _calls(fi.node) if getattr(c.func, "id", "") == "StartWorkflow"]
-    wf_ok = bool(sw) and all({("stages_to_requeue", False), ("full_workflow.status == WorkflowStatus.NOT_STARTED", True)} <= conditions_at(fi.node, c) for c in sw)
-    rep.check(wf_ok, "C01.R3", "recovery of a not yet started workflow", "NOT_STARTED workflow with no stage to re-queue gets StartWorkflow", fi.file, fi.node.lineno)
+    wf_ok = bool(sw) and all(("full_workflow.status == WorkflowStatus.NOT_STARTED", True) in conditions_at(fi.node, c) for c in sw)
+    rep.check(wf_ok, "C01.R3", "recovery of a not yet started workflow", "a NOT_STARTED workflow gets StartWorkflow", fi.file, fi.node.lineno)
 
 
 def _r3_planned_evidence(ctx, rep) -> None:
